@@ -215,6 +215,29 @@ TABLE.update({
  "C17-R": ("sim", "go test -vet=off -count=1 -run TestC17RAlwaysAnswers ./sim/"),
 })
 
+TABLE.update({
+ "C01-S": ("data", "go test -vet=off -count=1 -run TestC01S ./data/"),
+ "C01-T": ("data/cdata", "go test -vet=off -count=1 -run TestC01T ./data/cdata/"),
+ "C02-S": ("data", "go test -vet=off -count=1 -run TestC02S ./data/"),
+ "C02-T": ("data", "go test -vet=off -count=1 -run TestC02T ./data/"),
+ "C03-S": ("data/cdata", "go test -vet=off -count=1 -run TestDemoC03S ./data/cdata/"),
+ "C03-T": ("data/cdata", "go test -vet=off -count=1 -run TestDemoC03T ./data/cdata/"),
+ "C04-S": ("models/conversion", "go test -vet=off -count=1 -run TestC04SDemo ./models/conversion/"),
+ "C04-T": ("models/routing", "go test -vet=off -count=1 -run TestC04TDemo ./models/routing/"),
+ "C05-S": ("models/functions", "go test -race -vet=off -count=1 -run TestDemoSharedWindowed ./models/functions/"),
+ "C05-T": ("cmd/ow-sim", "go1.26.8 test -modfile=%(stub)s -vet=off -count=1 -run TestDemoLinkOrder ./cmd/ow-sim/"),
+ "C06-S": ("models/storage", "go test -vet=off -count=1 -run TestC06S ./models/storage/"),
+ "C06-T": ("models/routing", "go test -vet=off -count=1 -run TestC06T ./models/routing/"),
+ "C07-S": ("cmd/ow-sim", "go1.26.8 test -modfile=%(stub)s -vet=off -count=1 -run TestC07S ./cmd/ow-sim/"),
+ "C07-T": ("cmd/ow-sim", "go1.26.8 test -modfile=%(stub)s -vet=off -count=1 -timeout 900s -run TestC07T ./cmd/ow-sim/"),
+ "C08-S": ("io", "go1.26.8 test -modfile=%(stub)s -vet=off -count=1 -run TestC08SDemo ./io/"),
+ "C08-T": ("io", "go1.26.8 test -modfile=%(stub)s -vet=off -count=1 -run TestC08TDemo ./io/"),
+ "C14-S": ("models", "go test -vet=off -count=1 -run TestC14S ./models/"),
+ "C14-T": ("models", "go test -vet=off -count=1 -run TestC14T ./models/"),
+ "C17-S": ("sim", "go test -vet=off -count=1 -run TestC17S ./sim/"),
+ "C17-T": ("sim", "go test -vet=off -count=1 -run TestC17T ./sim/"),
+})
+
 def sh(cmd, cwd=WT):
     r = subprocess.run(cmd, shell=True, cwd=cwd, env=ENV, capture_output=True, text=True)
     return r.returncode, (r.stdout + r.stderr)[-1500:]
